@@ -42,8 +42,8 @@ P("C02", ["BOX", "SIGN", "FDB", "SF6"],
   "bounds pick the bound the direction points to; (FDB) the caller's box is the box handed to the differencer.",
   "nothing of the statement is left out, under the assumptions np.clip is exact and SciPy's approx_derivative "
   "keeps its stencil inside `bounds`", design="3/C02")
-P("C03", ["DOWNHILL", "ACCEPT", "KEEP", "LSCAP", "SCALEPOS"],
-  "(SCALEPOS) the packaged gradient scaler yields a positive factor -- a negative one turns descent into ascent; The selection logic only compares objective values, so its correctness is a dataflow fact: (DOWNHILL) an "
+P("C03", ["DOWNHILL", "ACCEPT", "KEEP", "LSCAP", "SCALEPOS", "UNITS"],
+  "(UNITS) the reference value and slope handed to the line search are in the same unit as the wrapper's evaluations it is compared with; (SCALEPOS) the packaged gradient scaler yields a positive factor -- a negative one turns descent into ascent; The selection logic only compares objective values, so its correctness is a dataflow fact: (DOWNHILL) an "
   "order-fact analysis of line_search proves the returned step is None or a step whose evaluated value is "
   "strictly below the (never overwritten) start value, NaN trial values never qualify; (ACCEPT) inside the main loop "
   "the iterate is only ever redefined as the projection of x + s*d with s the step returned by this iteration's "
@@ -95,15 +95,15 @@ P("C08", ["IDX", "SIGN", "PIN", "CPFORM", "RATIOFORM", "BFGSFORM", "OWN"],
   "floating-point error of these formulas; that the loop visits breakpoints until the first local minimiser "
   "(control structure beyond IDX); model decrease as a numerical fact",
   design="3/C08")
-P("C09", ["SIGN", "ALPHA", "FREE", "RATIOFORM", "SUBFORM", "KFACT", "SHARED", "OWN"],
-  "(KFACT) the LEL^T factor of K has the reference block form on its only non-trivial path, (SHARED, OWN; conservative) the kernel keeps no state between calls and does not write its inputs; The three places where the subspace step touches the box: (SIGN) truncation ratios non-negative on both "
+P("C09", ["SIGN", "ALPHA", "FREE", "RATIOFORM", "SUBFORM", "KFACT", "SHARED", "OWN", "KFORM"],
+  "(KFORM) the four blocks of K are -D - Y'ZZ'Y/theta, L_A - R_Z, its transpose and theta S'AA'S, decided in an algebra of triangular parts; (KFACT) the LEL^T factor of K has the reference block form on its only non-trivial path, (SHARED, OWN; conservative) the kernel keeps no state between calls and does not write its inputs; The three places where the subspace step touches the box: (SIGN) truncation ratios non-negative on both "
   "branches; (ALPHA) the truncation factor is min(1, nonneg) and multiplies the whole step once; (FREE) free set = "
   "strictly interior variables of the Cauchy point, active set its complement, step enters only through Z; "
   "(RATIOFORM) ratios are (bound - x_c)/dHat; (SUBFORM) reduced gradient r = g + theta(x_c - x) - W M c and step "
   "dHat = -(1/theta)(rHat + (1/theta) Z^T W v) match the direct primal method up to algebraic equivalence.",
   "the solve of the reduced system itself (K, LEL^T, Sherman-Morrison-Woodbury), model decrease, descent direction", design="3/C09")
-P("C10", ["MEM", "BFGSFORM", "OFFER", "RETRY", "MATSOWN"],
-  "(MATSOWN) the fields of the compact representation are assigned only inside bfgsmats.py, where BFGSFORM checks them; (RETRY) the retry branch cuts the stored points to one when it resets the matrices, so matrices and stored pairs agree; The four memory-discipline clauses of C10 are decided package-wide over every insertion / removal / rebinding "
+P("C10", ["MEM", "BFGSFORM", "OFFER", "RETRY", "MATSOWN", "BIND"],
+  "(BIND) the memory update is given the curvature threshold eps_SY (not another epsilon), so every stored pair satisfies s.y > eps_SY y.y; (MATSOWN) the fields of the compact representation are assigned only inside bfgsmats.py, where BFGSFORM checks them; (RETRY) the retry branch cuts the stored points to one when it resets the matrices, so matrices and stored pairs agree; The four memory-discipline clauses of C10 are decided package-wide over every insertion / removal / rebinding "
   "of the point and gradient histories (MEM): guarded by the strict curvature test on the inserted pair, "
   "reject-no-touch for history and matrices, bounded FIFO (<= maxcor pairs, oldest dropped), lock-step of X and G; "
   "(BFGSFORM) theta = y.y/s.y of the newest pair and S, Y, L, D, W, the middle-matrix factors assembled from the "
